@@ -30,7 +30,10 @@ class DirHandler(BaseHandler):
     def prep_initfiles(self) -> None:
         """Initialize the list of files.  Ignore the files we're suppoed to."""
         self.files = []
-        dirfiles = self.vfs.listdir(self.getselector())
+        # Scan the names in a fixed order: subclasses read link files while
+        # the names are scanned, so the order in which the OS enumerates the
+        # directory must not leak into the listing.
+        dirfiles = sorted(self.vfs.listdir(self.getselector()))
         ignorepatt = self.config.get("handlers.dir.DirHandler", "ignorepatt")
         for file in dirfiles:
             if self.prep_initfiles_canaddfile(
